@@ -71,6 +71,7 @@ func checkC09(c *Ctx) {
 	// the index rebuild that follows a rollback-by-overwrite is restartable: label last, decision always reached
 	c.rule("ORDER-index-rebuild", "rollback reaches the index rebuild decision; the rebuild writes its label last", 3)
 	checkRebuildDecision(c, "ORDER-index-rebuild")
+	checkRollbackDropsLabel(c, "PASS-rollback-drops-label")
 	checkIndexLabelLast(c, "ORDER-index-rebuild")
 
 	// ---- (2)
@@ -168,6 +169,7 @@ func checkC09(c *Ctx) {
 	// ---- (3)
 	checkOverwriteSequence(c)
 	checkRollbackRange(c)
+	checkLegacyRootConsumers(c, "DOM-legacy-empty-root")
 	// ---- (4) the range scans of a rollback cannot end early unnoticed
 	c.rule("ERR-E3-rollback", "the scans that delete the erased versions consult the iterator's error before reporting success", 2)
 	{
